@@ -9,6 +9,9 @@ Conformance     for every universe element (base image of gen/mkbase.py x corrup
                 through the reader's location map): run the real `e2fsck -fn` on the corrupted copy, project the same bytes
                 with the independent reader, and let TLC (spec/Trace_Tools.tla, action TFsckN) evaluate
                 FailedConjuncts(st0) and C02_Holds on the logged line.  No verdict is computed in python.
+Universe        base images x catalogue (singles, pairs, closed triples) + Corrupt.tla!C02Closed (relocated bitmap pointers, resize-inode
+                map) + the tool-built images of gen/c02_extras.py.  thorough runs ALL of it; quick = a seeded subset of the singles and
+                pairs + every closed triple / C02Closed element / extra image (so no seed can select an element thorough has not run).
 Reader limits   a state the reader cannot produce (exception, timeout, integer beyond TLC's range, certificate rejected by
                 CertOK) is `unknown`: counted in the evidence, never a violation.
 """
@@ -17,7 +20,7 @@ from common import VERIF, fast_tmp, seed, die_broken, NPROC, tool_env
 from common import run as sh
 import build, tlc as T, absstate
 from evidence import Evidence, Verdict
-import mkbase, corrupt
+import mkbase, corrupt, c02_extras
 
 PID = "C02"
 SPEC = os.path.join(VERIF, "spec")
@@ -25,7 +28,7 @@ JOBS = max(2, min(10, NPROC - 4))
 TLC_JOBS = 4
 STATE_CHUNK = 40            # FsckN lines with a state per TLC process
 
-QUICK_N = int(os.environ.get("C02_QUICK_N", "270"))
+QUICK_N = int(os.environ.get("C02_QUICK_N", "240"))
 QUICK_PAIRS = int(os.environ.get("C02_QUICK_PAIRS", "24"))
 # thorough: every bindable element of the universe is run (singles with recomputed and with stale checksum, pairs, triples);
 # the state of FLAGGED stale-checksum singles is projected (evidence only) inside a 1-in-STALE_EVERY subsample
@@ -254,13 +257,14 @@ def model_check(ev, tier, work):
 # ------------------------------------------------------------------------------------------------------------------
 # universe selection
 # ------------------------------------------------------------------------------------------------------------------
-def select(tier, U, profiles, pool, rng, quick_n=None, quick_pairs=None, all_stale=False):
+def select(tier, U, profiles, pool, rng, quick_n=None, quick_pairs=None, all_stale=False, with_relocs=False):
     """-> list of (profile, [recipes], want_state)"""
     quick_n = QUICK_N if quick_n is None else quick_n
     quick_pairs = QUICK_PAIRS if quick_pairs is None else quick_pairs
     singles = [[r] for r in U["catalogue"]]
-    prs = corrupt.pairs(U["pairseeds"]) + corrupt.triples(U)        # multi-field corruptions: all pairs of the seeds + the closed triples
-    ntr = len(corrupt.triples(U))
+    rel = corrupt.relocs(U) if with_relocs else []                   # C02 only: bitmap pointers relocated onto fixed metadata (Corrupt.tla!Relocs)
+    prs = corrupt.pairs(U["pairseeds"]) + corrupt.triples(U) + rel   # multi-field corruptions: all pairs of the seeds + the closed triples (+ relocs)
+    ntr = len(corrupt.triples(U)) + len(rel)                         # the closed multi-field corruptions: run by every tier, for every seed
     cases = []
     # which recipes bind on which profile (cheap: no image is written)
     bindmap = {}
@@ -268,7 +272,7 @@ def select(tier, U, profiles, pool, rng, quick_n=None, quick_pairs=None, all_sta
     for p, ks in zip(profiles, pool.map(_bindable, todo)):
         bindmap[p] = set(ks)
     ns = len(singles)
-    stats = {"catalogue": len(singles), "pairs": len(prs) - ntr, "triples": ntr,
+    stats = {"catalogue": len(singles), "pairs": len(prs) - ntr, "triples": ntr - len(rel), "relocs": len(rel),
              "bindable_singles": sum(1 for p in profiles for k in bindmap[p] if k < ns),
              "bindable_pairs": sum(1 for p in profiles for k in bindmap[p] if k >= ns)}
     only = os.environ.get("VERIF_ONLY")          # development / triage: restrict the universe to recipes matching a regex
@@ -291,8 +295,11 @@ def select(tier, U, profiles, pool, rng, quick_n=None, quick_pairs=None, all_sta
             rng.sample(cand_pair, min(len(cand_pair), quick_pairs))
         picked = set(pick)
         pick += [(p, k) for p in profiles for k in sorted(bindmap[p]) if k >= len(singles + prs) - ntr and (p, k) not in picked]    # the closed triples always
+        nrel0 = len(singles + prs) - len(rel)
         for p, k in pick:
-            cases.append((p, (singles + prs)[k], True))
+            # the state of every selected element is projected, except for the relocs: e2fsck flags all of them on the unchanged
+            # tree (the property holds trivially); their state is projected when e2fsck exits 0
+            cases.append((p, (singles + prs)[k], k < nrel0))
     else:
         # the WHOLE universe (closed-universe rule of DESIGN.md section 1: whatever the quick tier can select for any seed
         # has been run here).  Every element gets its e2fsck run, and its state is projected whenever e2fsck exits 0 (the
@@ -352,7 +359,31 @@ def run(tier):
             if not usable:
                 die_broken("no base image is clean for both e2fsck -fn and the independent oracle")
             profiles = usable
-            cases, ustats = select(tier, U, profiles, pool, rng)
+            # ---- C02's own tool-built images (gen/c02_extras.py): htree directories with names >= 0x80 under every hash version and
+            # signedness; the property is evaluated on them as they are (clean verdict => Consistent, judged by TLC)
+            xdir, xinfo = c02_extras.images(b)
+            xcases = [(-(1000 + i), "extra:" + x["name"], x["path"]) for i, x in enumerate(xinfo) if x["ok"]]
+            xres = pool.map(_image_case, xcases)
+            rx = tlc_lines([x["line"] for x in xres], work, "extra", STATE_CHUNK)
+            if rx["broken"]:
+                die_broken("TLC failed on the extra images: %s" % rx["broken"][0])
+            ev.cov["states"] += rx["distinct"]; ev.cov["transitions"] += rx["generated"]
+            xstat = {}
+            for i, x in enumerate(xres):
+                unk, failed = rx["evals"].get(i, (1, ["?"]))
+                m = x["meta"]
+                xstat[m["profile"]] = {"e2fsck_fn_exit": m["exit"], "unknown": unk, "failed_conjuncts": failed, "reader_findings": m.get("errs", [])[:4]}
+                if i in rx["bad"]:
+                    vd.violation("%s|%s" % (m["profile"], ",".join(failed)),
+                                 "e2fsck -fn exits 0 on the tool-built image %s (mke2fs -d, debugfs ssv, e2fsck -fyD of the tree under test) but the image violates %s (%s)" % (
+                                     m["profile"], ",".join(failed), "; ".join(m.get("errs", [])[:4])),
+                                 {"image": m["profile"], "built_by": "gen/c02_extras.py", "failed": failed, "reader_findings": m.get("errs")})
+            for x in xinfo:
+                if not x["ok"]:
+                    xstat["extra:" + x["name"]] = {"not_built": {k: v for k, v in x.items() if k.endswith("_rc") or k == "err"}}
+            ev.cov["extra_images"] = xstat
+            n_extra = len(xres)
+            cases, ustats = select(tier, U, profiles, pool, rng, with_relocs=True)
             ev.cov["universe"] = dict(ustats, profiles=profiles, selected=len(cases))
             t0 = time.time()
             jobs = [(k, p, recs, ws) for k, (p, recs, ws) in enumerate(cases)]
@@ -377,8 +408,8 @@ def run(tier):
             die_broken("a line with exit 0 reached TLC without a projected state (harness error)")
         if len(res_s["evals"]) != len(with_state):
             die_broken("TLC evaluated %d of %d states" % (len(res_s["evals"]), len(with_state)))
-        ev.cov["traces_validated_against_impl"] = len(done)
-        ev.cov["evaluations"] = len(with_state)
+        ev.cov["traces_validated_against_impl"] = len(done) + n_extra
+        ev.cov["evaluations"] = len(with_state) + n_extra
         ev.cov["not_bound_at_run_time"] = nskip
 
         # ---- statistics and verdicts
@@ -456,6 +487,9 @@ def run(tier):
             "base images enter the universe only if e2fsck -fn AND Consistent accept them",
             "states the reader cannot produce or whose certificates CertOK rejects are 'unknown' and not counted (%d this run)" % st["unknown"],
             "global superblock free counts and the other PR_NO_OK tolerances of DESIGN.md section 5 C02 are not part of Consistent",
+            "besides the catalogue x base images, both tiers run every bindable element of Corrupt.tla!C02Closed (bitmap pointers of unread groups relocated onto every kind of "
+            "fixed metadata of group 0 / an earlier / a later group with the bookkeeping fixed up; entries of the resize inode's reserved-GDT map) and evaluate the property on "
+            "C02's own tool-built images (gen/c02_extras.py: htree directories with names >= 0x80 under legacy / half_md4 / tea x signed / unsigned, a detached directory cycle)",
             "thorough runs every bindable universe element; the state of an image is projected whenever e2fsck -fn exits 0; states of FLAGGED images (the property holds "
             "trivially) are projected for the evidence only: 1 in %d, stale-checksum singles 1 in %d of those" % (FLAGGED_EVERY, STALE_EVERY),
         ]
@@ -488,9 +522,15 @@ def strip_csum(name):
     return "+".join(x.rsplit(".", 1)[0] for x in name.split("+"))
 
 
-def _base_case(args):
+def _image_case(args):
+    """an image that is checked as it is: (id, label, path)"""
+    k, label, path = args
+    return _base_case((k, label, [], True), img=path)
+
+
+def _base_case(args, img=None):
     k, profile, recs, ws = args
-    img = os.path.join(_G["basedir"], profile + ".img")
+    img = img or os.path.join(_G["basedir"], profile + ".img")
     log = os.path.join(_G["work"], "b%d.log" % os.getpid())
     rc, probs, out = corrupt.run_fsck(_G["fsck"], "-fn", img, _G["env"], log)
     if os.path.exists(log): os.unlink(log)
@@ -515,12 +555,19 @@ def replay(path):
     work = fast_tmp()
     try:
         _init(b, basedir, work)
-        B = _base(rp["profile"])
         img = os.path.join(work, "replay.img")
-        buf = bytearray(B.raw)
-        for o, hx in rp["patches"]:
-            bts = bytes.fromhex(hx); buf[o:o + len(bts)] = bts
-        open(img, "wb").write(buf)
+        if rp.get("image"):          # one of C02's own tool-built images: built again by the tree under test, checked as it is
+            xdir, xinfo = c02_extras.images(b)
+            src = [x["path"] for x in xinfo if "extra:" + x["name"] == rp["image"] and x["ok"]]
+            if not src:
+                die_broken("extra image %s could not be built" % rp["image"])
+            shutil.copy(src[0], img)
+        else:
+            B = _base(rp["profile"])
+            buf = bytearray(B.raw)
+            for o, hx in rp["patches"]:
+                bts = bytes.fromhex(hx); buf[o:o + len(bts)] = bts
+            open(img, "wb").write(buf)
         rc, probs, out = corrupt.run_fsck(_G["fsck"], "-fn", img, _G["env"], img + ".log")
         P, why = corrupt.project_guarded(img)
         st = absstate.strip(P, keep_tree=False) if P else {"reader_err": why}
